@@ -664,3 +664,28 @@ func init() {
 		Outside: []string{"user-supplied unique lists", "Postgres' own DDL semantics"},
 	})
 }
+
+func init() {
+	register(&PropSpec{
+		ID:   "C15",
+		Pkgs: []string{"./shovel"},
+		Runs: func(tier string) []HRun {
+			var rs []HRun
+			for pos := 0; pos < 20; pos++ {
+				for path := 0; path <= 1; path++ {
+					rs = append(rs, HRun{Pkg: "./shovel", Fn: "ZZ_C15_Inject", Params: []int{pos, path}})
+				}
+			}
+			rs = append(rs, HRun{Pkg: "./shovel", Fn: "ZZ_C15_Chain"})
+			return rs
+		},
+		Assumptions: []string{
+			"non-interference formulation: one symbolic byte is appended to one configuration string position (20 positions of a skeleton configuration that exercises every SQL text builder: DDL incl. unique/index statements, alter table, reorg delete, reference lookup incl. a nested tuple component, notification, application_name); whenever validation accepts and a recorded SQL text is a function of that byte, z3 must prove the byte is in [A-Za-z0-9_-]",
+			"two validation paths: file (config.ValidateFix) and dashboard (config.CheckUserInput on the submitted integration only, then task construction without ValidateFix, as web.SaveIntegration + loadTasks do); HTTP/JSON plumbing of the dashboard is not executed",
+			"symbolic configuration bytes are ASCII (< 0x80): wstrings.Safe's unicode classes are modelled exactly for ASCII only; non-ASCII letters/digits (which Safe accepts) are outside the claim",
+			"identifiers handed to pgx.CopyFrom are quoted by pgx and count as parameters; chain-derived bytes (address, topic, data) are symbolic in ZZ_C15_Chain and must not influence any SQL text",
+		},
+		Bounds:  map[string]string{"quick": "20 positions x 2 paths, one appended byte each; 1 chain-data run", "thorough": "same"},
+		Outside: []string{"non-ASCII runes", "positions not in the skeleton (e.g. compiled integrations)", "prepended or inner hostile bytes"},
+	})
+}
